@@ -5,7 +5,8 @@
 From RichModel Require Import Prelude Color Style Total SpecTotal.
 From RichModel Require Markup AnsiDecode Frames TextOps.
 From RichModel Require Wrap Layout.
-From RichProofs Require Import TotalP TotalP2 TotalP3 TotalP4 TotalP5.
+From RichModel Require Table.
+From RichProofs Require Import TotalP TotalP2 TotalP3 TotalP4 TotalP5 TotalP6 TotalP7 TotalP8 LayoutP2.
 
 (* (1) Color.parse: every string; ColorParseError or a colour *)
 Theorem C14_color_parse_total : forall s,
@@ -117,36 +118,39 @@ Theorem C14_columns_asis_is_frames : forall ws cwid pl pr eq cf rtl W,
 Proof. exact columns_asis_is_frames. Qed.
 Print Assumptions C14_columns_asis_is_frames.
 
-(* (9) Console.print(s, markup=False).
-   FULL STATEMENT NOT PROVED:
-     forall hl E s W, (forall p, in_range_b (zlen p) (hl p) = true) -> 1 <= W ->
-       exists r, print_no_markup hl E s W = Ok r
-   (hl = the highlighter oracle, spans within the text; E = the emoji oracle).
-   Proved, unbounded: (a) Text.render's enter/leave sweep never fails on ANY text whose spans lie within it
-   (every leave finds its id, the style stack is never empty when a segment is emitted) -- the only partial
-   step of the chain; (b) Text("\n").join keeps spans within the text; (c) hence printing cannot fail as
-   soon as the lines Text.wrap produced keep their spans inside themselves.
-   Missing: that Text.wrap (split, expand_tabs, divide, rstrip_end, truncate) preserves span ranges --
-   C02 proved content and fit of those lines, not their span ranges.  The hypothesis is evaluated by the
-   harness (spec.lines_in_range) on the lines of the real Text.wrap of every generated string, and the
-   highlighter hypothesis (spec.in_range) on the real ReprHighlighter's spans. *)
-Theorem C14_text_render_total : forall t, Good t -> exists r, TextOps.render t = Ok r.
-Proof. exact render_good_total. Qed.
-Print Assumptions C14_text_render_total.
+(* (9) Console.print(s, markup=False): every string, every width (also W < 1), every emoji oracle E,
+   every highlighter oracle hl whose spans lie within the text (validated on the real ReprHighlighter
+   for every generated string).  The chain: Text(E s) -> hl -> Text.wrap -> Text("\n").join -> Text.render;
+   _render_buffer is a total function on segments. *)
+Theorem C14_print_no_markup_total : forall hl E s W,
+  (forall p, in_range_b (zlen p) (hl p) = true) ->
+  (exists r, print_no_markup hl E s W = Ok r)
+  /\ documented_b OP_print (code_of (print_no_markup hl E s W)) = true.
+Proof. intros hl E s W H. split; [exact (print_no_markup_total hl E s W H)|exact (print_no_markup_documented hl E s W H)]. Qed.
+Print Assumptions C14_print_no_markup_total.
 
+(* the three steps behind it, each unbounded:
+   (a) Text.wrap (split, expand_tabs, divide, rstrip_end, truncate; justify default, overflow fold) keeps
+       every span inside its line, for every style type and every width >= 1 *)
+Theorem C14_wrap_keeps_spans : forall S seqb null add fx (t : Wrap.text S) W,
+  Wrap.fix_order fx = true -> okT S t -> 1 <= W ->
+  Forall (okT S) (Wrap.wrap S seqb null add fx t W Wrap.J_DEFAULT Wrap.OV_FOLD 8 false).
+Proof. exact wrap_range. Qed.
+Print Assumptions C14_wrap_keeps_spans.
+
+(*  (b) Text("\n").join keeps spans within the text *)
 Theorem C14_join_keeps_spans : forall lines, Forall wf lines ->
   exists t, TextOps.join TextOps.FIXED NLT lines = Ok t /\ Good t.
 Proof. exact join_nl_good. Qed.
 Print Assumptions C14_join_keeps_spans.
 
-Theorem C14_print_no_markup_total_partial : forall hl E s W,
-  (let p := TextOps.plain (TextOps.ctor TextOps.FIXED (E s) (TextOps.default_meta 0) []) in
-   Forall line_ok (wrapped p (hl p) W)) ->
-  exists r, print_no_markup hl E s W = Ok r.
-Proof. exact print_no_markup_total_partial. Qed.
-Print Assumptions C14_print_no_markup_total_partial.
+(*  (c) Text.render's sorted enter/leave sweep never fails on ANY text whose spans lie within it (every leave
+       finds its id on the stack, the style stack is never empty when a segment is emitted) *)
+Theorem C14_text_render_total : forall t, Good t -> exists r, TextOps.render t = Ok r.
+Proof. exact render_good_total. Qed.
+Print Assumptions C14_text_render_total.
 
-(* spans outside the text are what makes the sweep fail: the hypothesis is needed *)
+(* spans outside the text are what makes the sweep fail: the hypothesis on hl is needed *)
 Example C14_print_nonvacuous :
   code_of (print_no_markup (fun p => [(0, 2, 7); (1, 3, 8)]) (fun s => s) (lit "abc def") 3) = 0
   /\ code_of (render_text (lit "ab") [(1, 5, 7)] 10) = 0
@@ -154,21 +158,46 @@ Example C14_print_nonvacuous :
   /\ code_of (render_text (lit "ab") [(2, 1, 7)] 10) = 100 + K_ValueError.
 Proof. exact print_no_markup_nonvacuous. Qed.
 
-(* (10) rendering and measuring renderable trees (Layout.render / Layout.measure of C01/C09).
-   FULL STATEMENT NOT PROVED:
-     forall cf r W, valid_opts r -> 1 <= W -> (exists ls, render cf r W = Ok ls) /\ (exists m, measure cf r W = Ok m)
-   Proved, unbounded (every width, also W < 1 and far below the structural minimum; every nesting depth):
-   the fragment Text, Padding, Panel, Align, Constrain, Styled, RenderGroup, Rule, Bar, ProgressBar, objects
-   without __rich_measure__, __rich__ casts.  Missing: Table (calc_widths / ratio arithmetic and the row
-   assembly answer in `res`), Columns without an explicit width (the `while column_count > 1` loop must be shown
-   never to reach 0; for an explicit width see (8)) and Tree (fuel of the explicit stack): there the outcome
-   classes of model and implementation are compared on generated trees at EVERY console width 1..200. *)
-Theorem C14_render_total_partial : forall cf r W, simple r = true ->
-  (exists ls, render cf r W = Ok ls) /\ (exists m, measure cf r W = Ok m).
-Proof. intros cf r W H. split; [exact (render_simple_total cf r W H)|exact (measure_simple_total cf r W H)]. Qed.
-Print Assumptions C14_render_total_partial.
+(* (10) rendering and measuring renderable trees (Layout.render / Layout.measure of C01/C09): EVERY tree of
+   Text, Padding, Panel, Align, Constrain, Styled, RenderGroup, Rule, Bar, ProgressBar, Table, Columns, Tree,
+   objects without __rich_measure__ and __rich__ casts, nested to any depth, at EVERY width (W < 1 and widths
+   far below the structural minimum included), every console width and inherited options.
+   Option domain `valid`: no condition at all except on tables -- non-negative padding, no table min_width,
+   at least one column, columns without fixed width / min_width / no_wrap, max_width >= 1, ratio >= 1
+   (C01's table domain without its `width=None` clause).  Outside it (Table(min_width=), Column(width=,
+   min_width=, no_wrap=True)) the outcome classes are compared on generated trees at every width 1..200;
+   missing there: calc_widths_total for such columns (measure_column >= 0 and the bound lemmas of LayoutP8). *)
+Theorem C14_render_total : forall cf r W, valid r = true -> exists ls, render cf r W = Ok ls.
+Proof. exact render_total. Qed.
+Print Assumptions C14_render_total.
+
+Theorem C14_measure_total : forall cf r W, valid r = true -> exists m, measure cf r W = Ok m.
+Proof. exact measure_total. Qed.
+Print Assumptions C14_measure_total.
 
 Example C14_render_nonvacuous :
-  simple (Layout.Panel (Layout.Group [Layout.Txt (lit "hello world") None None None; Layout.Rule (lit "t") [9472] 1] true)
-                (Frames.mkPanel 0 true false false (lit "title") 1 true None (0, 1, 0, 1) None None)) = true.
-Proof. reflexivity. Qed.
+  valid ex_tree = true /\ simple ex_tree = false
+  /\ code_of (render (Layout.mkCfg 1 true) ex_tree 1) = 0 /\ code_of (measure (Layout.mkCfg 1 true) ex_tree 1) = 0.
+Proof. exact render_total_nonvacuous. Qed.
+
+(* the pieces: the table solver never fails at ANY budget (ratio kernels under their guards, collapse
+   terminates, re-measure, padding) ... *)
+Theorem C14_calc_widths_total : forall o cols M,
+  Table.o_minw o = None -> cols <> [] -> Forall col_free cols -> pad_ok o ->
+  exists ws, Table.calc_widths false false o cols M = Ok ws.
+Proof. exact calc_widths_total. Qed.
+Print Assumptions C14_calc_widths_total.
+
+(* ... the Columns width search `while column_count > 1` terminates within its fuel with a count >= 1 and the
+   grid is built, for ANY measured widths not exceeding the console width ... *)
+Theorem C14_columns_grid_total : forall ws pl pr eq cf rtl W, 0 <= W -> Forall (fun w => w <= W) ws ->
+  exists g, Frames.columns_grid ws None pl pr eq cf rtl W = Ok g.
+Proof. exact columns_grid_total. Qed.
+Print Assumptions C14_columns_grid_total.
+
+(* ... and Columns(width=cw) of (8) is C08's columns_grid_fixed, class for class (Tree: C08_tree_dfs_prefix) *)
+Theorem C14_columns_fixed_is_frames : forall ws cwid pl pr eq cf rtl W,
+  code_of (columns_fixed_width true (zlen ws) cwid pl pr cf W)
+  = code_of (Frames.columns_grid_fixed ws (Some cwid) pl pr eq cf rtl W).
+Proof. exact columns_fixed_is_frames. Qed.
+Print Assumptions C14_columns_fixed_is_frames.
